@@ -420,6 +420,9 @@ def cases_helpers(L, tier, seed):
             for cols_ in ([0], [-1], [0, 0], [0, -1, 0], [mx - 1], [min(lens) - 1, 0], [-min(lens)], [-mx], [mx], [0, mx - 1, 0]):
                 g4 = RI.GetItemList(row_none=(ra_ is None, rb_ is None))
                 yield g4, (lambda self, iis: self[iis]), dict(self=Rg, iis=(slice(ra_, rb_), list(cols_))), ('getitem-slice-list', lens, ra_, rb_, cols_)
+            for col_ in (0, -1, mx - 1, min(lens) - 1, -min(lens), -mx, mx, min(lens)):
+                g5 = RI.GetItemList(row_none=(ra_ is None, rb_ is None), int_column=True)
+                yield g5, (lambda self, iis: self[iis]), dict(self=Rg, iis=(slice(ra_, rb_), int(col_))), ('getitem-slice-int', lens, ra_, rb_, col_)
         for r in rs[::3]:
             for c in cs[::(7 if tier == 'quick' else 3)]:
                 yield cv2, ram._convert_from_2d, dict(iis_ragged=np.array([r, c]), lengths=lengths.copy(), starts=starts.copy(), error_check=True), ('convert-2-row-array', lens, r, c)
